@@ -11,5 +11,7 @@ HERE="$(pwd)"
 (cd lean && lake build)
 cp "$REPO/go.sum" harness/go.sum
 [ "$REPO" != /repo ] || (cd harness && go build -tags verif -o ../.work/dh-warm ./cmd/dh && rm -f ../.work/dh-warm)
+# the race-detector build of the harness (C20's concurrent burst): warm the build cache
+[ "$REPO" != /repo ] || (cd harness && go build -race -tags verif -o ../.work/dh-race-warm ./cmd/dh && rm -f ../.work/dh-race-warm)
 (cd "$REPO" && go build -o "$HERE/.work/dirk-warm" . && rm -f "$HERE/.work/dirk-warm")
 echo setup-ok
